@@ -4,6 +4,7 @@ import (
 	"fmt"
 
 	"github.com/buildbuildio/pebbles/common"
+	"github.com/buildbuildio/pebbles/simhook"
 
 	"github.com/samber/lo"
 	"github.com/vektah/gqlparser/v2/ast"
@@ -73,6 +74,13 @@ func createQueryPlanSteps(ctx *PlanningContext, insertionPoint []string, parentT
 		}
 
 		result = append(result, qps)
+	}
+	if perm := simhook.Order(len(result), func(i int) string { return result[i].URL }); perm != nil {
+		ordered := make([]*QueryPlanStep, len(result))
+		for i, j := range perm {
+			ordered[i] = result[j]
+		}
+		result = ordered
 	}
 	return result, nil
 }
